@@ -47,7 +47,8 @@ CONSTANTS Clients,          \* e.g. {1, 2}
 \*  [k |-> "load",   key |-> b]            Branch.Load: the branch is opened (ReadHead), the data objects are
 \*                                        uploaded ("up"), and only then the commit loop of "tip" starts --
 \*                                        other clients may commit while the upload is in progress
-\*  [k |-> "insert", key |-> n]            CreateBranch / CreatePool (value = fresh id)
+\*  [k |-> "insert", key |-> n, ival |-> v] CreateBranch (value = the commit v the branch is created at) /
+\*                                         CreatePool (ival = -1: value = fresh id)
 \*  [k |-> "rmkey",  key |-> n]            RemoveBranch
 \*  [k |-> "rename", id |-> i, new |-> n]  RenamePool
 \*  [k |-> "rmid",   id |-> i]             RemovePool
@@ -171,7 +172,7 @@ RH0(c) ==
           [] OTHER ->
                LET looked == l0.npre > 0      \* the lookup happened in an earlier read; its result is kept
                    oldk == IF looked THEN l0.lkk ELSE KeyOfId(t, op.id)
-                   e == CASE op.k = "insert" -> [k |-> "add", key |-> op.key, val |-> fresh, txn |-> fresh]
+                   e == CASE op.k = "insert" -> [k |-> "add", key |-> op.key, val |-> IF op.ival >= 0 THEN op.ival ELSE fresh, txn |-> fresh]
                           [] op.k = "rmkey"  -> [k |-> "del", key |-> op.key,
                                                  exp |-> IF looked THEN l0.lkv ELSE IF Has(t, op.key) THEN t[op.key] ELSE -1, txn |-> fresh]
                           [] op.k = "rmid"   -> [k |-> "del", key |-> oldk, exp |-> op.id, txn |-> fresh]
